@@ -370,8 +370,9 @@ class ImplRun:
         if t == "m":
             return np.array(ix[1], dtype=bool) if len(ix[1]) % 2 == 0 else [bool(b) for b in ix[1]]
         if t == "l":
-            return "L%d" % ix[1]
-        ks = [kk[1] if kk[0] == "I" else "L%d" % kk[1] for kk in ix[1]]
+            # a label as a plain str, or as the numpy string scalar that a label column (`stru.label`) hands out
+            return np.str_("L%d" % ix[1]) if ix[1] % 3 == 1 else "L%d" % ix[1]
+        ks = [kk[1] if kk[0] == "I" else (np.str_("L%d" % kk[1]) if kk[1] % 3 == 2 else "L%d" % kk[1]) for kk in ix[1]]
         return tuple(ks) if t == "t" else ks
 
     def mkatom(self, p):
